@@ -119,3 +119,34 @@ Definition counts_b (sc st : list Z) (nt c : Z) (r : list Z) : bool :=
 
 Definition cluster_spikes_b (sc : list Z) (c : Z) (r : list Z) : bool :=
   zlist_eqb r (members sc (arange (length sc)) c).
+
+(* ---------- stage 2: complete behaviour of _index_of; the reference grouped mean ---------- *)
+(* _index_of builds a table of max(lookup) + 2 cells (2 cells for an empty lookup) *)
+Definition lk_max (lookup : list Z) : Z :=
+  match lookup with [] => 0 | x :: r => fold_right Z.max x r end.
+Definition table_len (lookup : list Z) : Z := lk_max lookup + 2.
+
+(* what _index_of returns for ONE queried id x inside the table range -N <= x < N, for a distinct
+   non-negative lookup: a negative x is first wrapped by Python's negative indexing (y = x + N);
+   a member of the lookup gives its position; the last cell (reached by -1 and by max+1) gives -1;
+   every other id -- a non-member -- gives 0, indistinguishable from "position 0". *)
+Definition IndexOf1 (lookup : list Z) (x k : Z) : Prop :=
+  let N := table_len lookup in
+  let y := if x <? 0 then x + N else x in
+  (In y lookup /\ 0 <= k /\ nth_error lookup (Z.to_nat k) = Some y) \/
+  (y = N - 1 /\ k = -1) \/
+  (~ In y lookup /\ y <> N - 1 /\ k = 0).
+Definition IndexOf_Full (arr lookup r : list Z) : Prop := Forall2 (IndexOf1 lookup) arr r.
+
+(* the (sum, count) pairs of the definition: one per distinct non-negative id, ids increasing *)
+Definition gmean_ref (arr sc : list Z) : list gm :=
+  map (fun c => mkgm (zsum (members sc arr c)) (Z.of_nat (length (members sc arr c))))
+      (np_unique (filter (fun v => 0 <=? v) sc)).
+
+Fixpoint gml_eqb (a b : list gm) : bool :=
+  match a, b with
+  | [], [] => true
+  | x :: a', y :: b' => (gm_sum x =? gm_sum y) && (gm_cnt x =? gm_cnt y) && gml_eqb a' b'
+  | _, _ => false
+  end.
+Definition gmean_b (arr sc : list Z) (r : list gm) : bool := gml_eqb (gmean_ref arr sc) r.
